@@ -409,13 +409,14 @@ func (a *Analyzer) buildElementTree(result *AnalysisResult) []LayoutElement {
 
 	// Add lists
 	if result.Lists != nil {
-		for i, list := range result.Lists.Lists {
+		for i := range result.Lists.Lists {
+			list := &result.Lists.Lists[i] // not the loop variable: every element needs its own list
 			elem := LayoutElement{
 				Type:  model.ElementTypeList,
 				BBox:  list.BBox,
-				Text:  getListText(&list),
+				Text:  getListText(list),
 				Index: i,
-				List:  &list,
+				List:  list,
 			}
 			elements = append(elements, elem)
 			markListParagraphs(list.Items, consumedParaIndices)
@@ -424,7 +425,8 @@ func (a *Analyzer) buildElementTree(result *AnalysisResult) []LayoutElement {
 
 	// Add headings (a numbered heading that became an item of a list stays in the list)
 	if result.Headings != nil {
-		for i, heading := range result.Headings.Headings {
+		for i := range result.Headings.Headings {
+			heading := &result.Headings.Headings[i]
 			if consumedParaIndices[heading.Index] {
 				continue
 			}
@@ -433,7 +435,7 @@ func (a *Analyzer) buildElementTree(result *AnalysisResult) []LayoutElement {
 				BBox:    heading.BBox,
 				Text:    heading.Text,
 				Index:   i,
-				Heading: &heading,
+				Heading: heading,
 				Lines:   heading.Lines,
 			}
 			elements = append(elements, elem)
@@ -443,7 +445,8 @@ func (a *Analyzer) buildElementTree(result *AnalysisResult) []LayoutElement {
 
 	// Add remaining paragraphs
 	if result.Paragraphs != nil {
-		for i, para := range result.Paragraphs.Paragraphs {
+		for i := range result.Paragraphs.Paragraphs {
+			para := &result.Paragraphs.Paragraphs[i]
 			if consumedParaIndices[i] {
 				continue
 			}
@@ -452,7 +455,7 @@ func (a *Analyzer) buildElementTree(result *AnalysisResult) []LayoutElement {
 				BBox:      para.BBox,
 				Text:      para.Text,
 				Index:     i,
-				Paragraph: &para,
+				Paragraph: para,
 				Lines:     para.Lines,
 			}
 			elements = append(elements, elem)
@@ -671,14 +674,15 @@ func (a *Analyzer) QuickAnalyze(fragments []text.TextFragment, pageWidth, pageHe
 		result.Stats.ParagraphCount = len(result.Paragraphs.Paragraphs)
 
 		// Convert paragraphs to elements
-		for i, para := range result.Paragraphs.Paragraphs {
+		for i := range result.Paragraphs.Paragraphs {
+			para := &result.Paragraphs.Paragraphs[i]
 			elem := LayoutElement{
 				Type:      model.ElementTypeParagraph,
 				BBox:      para.BBox,
 				Text:      para.Text,
 				Index:     i,
 				ZOrder:    i,
-				Paragraph: &para,
+				Paragraph: para,
 				Lines:     para.Lines,
 			}
 			result.Elements = append(result.Elements, elem)
